@@ -219,4 +219,108 @@ example : run [(0, 1), (1, 1)] = [(0, true), (2, false)] := by decide
 example : run [(10, 10), (0, 5)] = [(0, true), (5, false), (10, true), (20, false)] := by decide
 example : (getRangeToRead (run [(0, 1), (1, 1), (5, 0)]) 0 10) = (2, true) := by decide
 
+/-! ## Canonical state: order independence and idempotence -/
+
+theorem cov_cons (a b : Nat) (r : List (Nat × Nat)) (x : Nat) :
+    cov ((a, b) :: r) x = ((decide (a ≤ x) && decide (x < b)) || cov r x) := by
+  simp [cov, List.any_cons]
+
+/-- a well-formed interval list is determined by the set it covers -/
+theorem good_unique (ivs : List (Nat × Nat)) :
+    ∀ (lo : Nat) (ivs' : List (Nat × Nat)), Good lo ivs → Good lo ivs' →
+      (∀ x, cov ivs x = cov ivs' x) → ivs = ivs' := by
+  induction ivs with
+  | nil =>
+    intro lo ivs' _ hg' h
+    cases ivs' with
+    | nil => rfl
+    | cons p r' =>
+      obtain ⟨a', b'⟩ := p
+      obtain ⟨_, h2, _⟩ := hg'
+      have := h a'
+      rw [cov_cons] at this
+      simp [cov, h2] at this
+  | cons p r ih =>
+    intro lo ivs' hg hg' h
+    obtain ⟨a, b⟩ := p
+    obtain ⟨g1, g2, g3⟩ := hg
+    cases ivs' with
+    | nil =>
+      have := h a
+      rw [cov_cons] at this
+      simp [cov, g2] at this
+    | cons p' r' =>
+      obtain ⟨a', b'⟩ := p'
+      obtain ⟨g1', g2', g3'⟩ := hg'
+      have hr : ∀ y, y ≤ b → cov r y = false := fun y hy => cov_lt_lo r (b + 1) y g3 (by omega)
+      have hr' : ∀ y, y ≤ b' → cov r' y = false := fun y hy => cov_lt_lo r' (b' + 1) y g3' (by omega)
+      have haa : a = a' := by
+        rcases Nat.lt_trichotomy a a' with hlt | heq | hgt
+        · have := h a
+          rw [cov_cons, cov_cons, hr' a (by omega)] at this
+          simp [g2] at this; omega
+        · exact heq
+        · have := h a'
+          rw [cov_cons, cov_cons, hr a' (by omega)] at this
+          simp [g2'] at this; omega
+      subst haa
+      have hbb : b = b' := by
+        rcases Nat.lt_trichotomy b b' with hlt | heq | hgt
+        · have := h b
+          rw [cov_cons, cov_cons, hr b (by omega)] at this
+          simp at this; omega
+        · exact heq
+        · have := h b'
+          rw [cov_cons, cov_cons, hr' b' (by omega)] at this
+          simp at this; omega
+      subst hbb
+      have hrr : ∀ x, cov r x = cov r' x := by
+        intro x
+        by_cases hx : x ≤ b
+        · rw [hr x hx, hr' x hx]
+        · have := h x
+          rw [cov_cons, cov_cons] at this
+          have hf : (decide (a ≤ x) && decide (x < b)) = false := by simp; omega
+          rw [hf] at this
+          simpa using this
+      rw [ih (b + 1) r' g3 g3' hrr]
+
+/-- **C22, canonical state**: the tracker's markers depend only on WHICH offsets were written —
+    not on the order of the writes, their split into calls, or repetitions. -/
+theorem C22_tracker_canonical (ws ws' : List (Nat × Nat))
+    (h : ∀ x, covered ws x = covered ws' x) : run ws = run ws' := by
+  obtain ⟨ivs, e1, e2, e3⟩ := run_inv ws [] [] trivial (by intro x; rfl)
+  obtain ⟨ivs', e1', e2', e3'⟩ := run_inv ws' [] [] trivial (by intro x; rfl)
+  simp only [List.nil_append] at e3 e3'
+  have : ivs = ivs' := good_unique ivs 0 ivs' e2 e2' (fun x => by rw [e3 x, e3' x, h x])
+  show run ws = run ws'
+  rw [show run ws = ofIvs ivs from e1, show run ws' = ofIvs ivs' from e1', this]
+
+theorem covered_perm {ws ws' : List (Nat × Nat)} (hp : ws.Perm ws') (x : Nat) :
+    covered ws x = covered ws' x := by
+  unfold covered
+  induction hp with
+  | nil => rfl
+  | cons a _ ih => simp [List.any_cons, ih]
+  | swap a b l => simp only [List.any_cons]; rw [← Bool.or_assoc, ← Bool.or_assoc, Bool.or_comm (_ && _) (_ && _)]
+  | trans _ _ ih1 ih2 => rw [ih1, ih2]
+
+/-- order independence: any reordering of the same writes leaves the same markers -/
+theorem C22_tracker_order_independent (ws ws' : List (Nat × Nat)) (hp : ws.Perm ws') :
+    run ws = run ws' := C22_tracker_canonical ws ws' (covered_perm hp)
+
+/-- idempotence: repeating a write changes nothing -/
+theorem C22_tracker_idempotent (ws : List (Nat × Nat)) (w : Nat × Nat) (hw : w ∈ ws) :
+    run (ws ++ [w]) = run ws := by
+  apply C22_tracker_canonical
+  intro x
+  rw [covered_append]
+  cases hc : (decide (w.1 ≤ x) && decide (x < w.1 + w.2))
+  · simp
+  · have : covered ws x = true := by
+      unfold covered; rw [List.any_eq_true]; exact ⟨w, hw, hc⟩
+    simp [this]
+
+example : run [(4, 2), (0, 3), (3, 1)] = run [(0, 6)] := by decide
+
 end Tracker
